@@ -13,6 +13,7 @@ import (
 	"fmt"
 	"os"
 	"os/exec"
+	"runtime/debug"
 	"sort"
 	"strings"
 	"sync/atomic"
@@ -29,9 +30,9 @@ type Case struct {
 
 // Verdict is the outcome of one case.
 type Verdict struct {
-	Oracle   []string // property violations observed on the implementation
-	Mismatch []string // model / implementation disagreements (correspondence)
-	Tags     []string // extra tags discovered while running (branches hit)
+	Oracle   []string       // property violations observed on the implementation
+	Mismatch []string       // model / implementation disagreements (correspondence)
+	Tags     []string       // extra tags discovered while running (branches hit)
 	Counts   map[string]int // extra counters (e.g. sub-evaluations inside one case), summed into the histogram
 	Note     string
 }
@@ -127,6 +128,9 @@ var currentIndex int64 = -1
 var currentStart int64
 
 func main() {
+	// recursion where the code is iterative today shows as a stack overflow on deep inputs: with Go's default limit of
+	// 1 GB that needs millions of nested frames; 16 MB (far above what the library needs) makes it visible 64 times earlier
+	debug.SetMaxStack(16 << 20)
 	if len(os.Args) < 2 {
 		fmt.Fprintln(os.Stderr, "usage: harness facts | check <prop> [flags] | list")
 		os.Exit(2)
